@@ -193,6 +193,11 @@ def check(ctx):
     ctx.inst('R4', sv, 'setpoint-needs-flying', ok, 'set-points reach the thread unchanged and only while flying')
     tvs = T.method('set_vel_setpoint')
     puts = [c for c in walk_own(tvs.node) if method_call(c, 'put')]
+    tini = T.method('__init__')
+    qs_ = [s_ for s_ in walk_own(tini.node) if isinstance(s_, ast.Assign) and norm(s_.targets[0]) == 'self._queue']
+    ctx.inst('R4', tini, 'queue-never-blocks', len(qs_) == 1 and norm(qs_[0].value) in ('Queue()', 'queue.Queue()', 'Queue(0)', 'Queue(maxsize=0)', 'queue.Queue(maxsize=0)'),
+             'the set-point queue is unbounded: land() / stop() put their commands without ever waiting for the thread (which may have died on a link error); found %s' %
+             [norm(s_.value) for s_ in qs_])
     ctx.inst('R4', tvs, 'queue-order', len(puts) == 1 and norm(puts[0].args[0]) == '(%s)' % ', '.join(tvs.params[1:5]), 'the set-point tuple is queued as (vx, vy, vz, yaw rate)')
 
     # ---- R5: algebra ----------------------------------------------------------------------
@@ -328,7 +333,8 @@ def check(ctx):
              'compute the duration from the same numbers: a limit applied here shortens every fast move)')
 
     # ---- R8: the set-points the primitives are streamed through reach the firmware as commanded (shared with C08.R1) ----
-    from .c08 import sender_layout_for
+    from .c08 import header_writer_rules, sender_layout_for
+    header_writer_rules(ctx, 'R8')      # stop and priority release differ from the set-points in the channel only: pk.channel = .. must reach the header byte (shared with C08.R4)
     CMD_, HLC_ = 'cflib/crazyflie/commander.py', 'cflib/crazyflie/high_level_commander.py'
     sender_layout_for(ctx, [CMD_ + ':Commander.send_hover_setpoint', CMD_ + ':Commander.send_stop_setpoint', CMD_ + ':Commander.send_notify_setpoint_stop',
                             HLC_ + ':HighLevelCommander.takeoff', HLC_ + ':HighLevelCommander.land', HLC_ + ':HighLevelCommander.go_to', HLC_ + ':HighLevelCommander.stop'], 'R8')
